@@ -282,3 +282,71 @@ def run_template(rep, crate, cfg):
                 nn = strip(f_N)
                 okn = nn == item or (nn[0] == "phi" and set(nn[1]) == {("const", 1), item})
                 chk(okn, "N-result", "N is the n at which the search stopped", f_N)
+
+
+# ---------------------------------------------------------------------------
+# R5 builder plumbing
+
+def run_plumbing(rep, crate, cfg):
+    """C14-R5: the public entry points hand the caller's transfer length, packet size and memory budget to the derivation
+    unchanged.  Every call of the derivation passes, per argument, a parameter of the caller, the length of a slice
+    parameter, a field of the builder, or a literal default; every `&mut self` setter of the builder stores its argument as
+    given; nothing else writes the builder's fields.  (A budget that is clamped, rounded or floored on the way makes the
+    derived N/Z those of another budget although the derivation itself is the RFC's.)"""
+    R = "C14-R5"
+    fns = find_fn(crate)
+    if not fns:
+        return
+    target = fns[0].key
+    N = lambda x: terms.normalise(terms.strip_casts(terms.simplify(terms.normalise(x))))
+    sites = 0
+    builder_fields = {}
+
+    def passthrough(a, g):
+        if a[0] == "param" or a[0] == "const":
+            return True
+        if a[0] == "call" and isinstance(a[1], str) and a[1].endswith("::len") and len(a[2]) == 1 and a[2][0][0] == "param":
+            return True
+        if a[0] == "field" and a[1] == ("deref", ("param", 1)) and (g.f.get("impl_self") or {}).get("adt"):
+            builder_fields.setdefault(g.f["impl_self"]["adt"], set()).add(a[2])
+            return True
+        return False
+    for k, g in sorted(crate.fns.items()):
+        if g.f.get("test_build") or k == target:
+            continue
+        tb = None
+        for blk in g.blocks:
+            t = blk["term"]
+            if blk["cleanup"] or t["t"] != "call" or not (t.get("callee") or "").endswith(target.split("::")[-1]):
+                continue
+            if (t.get("resolved") or t.get("callee")) != target and not (t.get("callee") or "").endswith(target):
+                continue
+            tb = tb or terms.TermBuilder(g)
+            ct = tb.call_term(blk["i"], t)
+            sites += 1
+            for i, a in enumerate(ct[2]):
+                a = N(a)
+                rep.check(passthrough(a, g), R, k, "argument-%d-unchanged" % i, g.loc(),
+                          "%s passes argument %d of the derivation (%s) as the caller gave it" % (
+                              k.split("::")[-1], i, ("transfer length", "packet size", "memory budget")[i] if i < 3 else "?"),
+                          {"term": terms.fmt(a)[:160]}, cfg)
+    rep.floor(R, sites, 2, "call sites of the parameter derivation (with_defaults, EncoderBuilder::build)", cfg)
+    # setters of the builder: field := parameter; no other writer
+    for adt, idxs in builder_fields.items():
+        for k, g in sorted(crate.fns.items()):
+            if g.f.get("test_build"):
+                continue
+            for blk in g.blocks:
+                if blk["cleanup"]:
+                    continue
+                for s in blk["stmts"]:
+                    if s["s"] != "assign":
+                        continue
+                    pr = s["lhs"]["proj"]
+                    if len(pr) == 2 and pr[0].get("p") == "deref" and pr[1].get("p") == "field" and pr[1].get("adt") == adt \
+                            and pr[1].get("i") in idxs:
+                        tb = terms.TermBuilder(g)
+                        v = N(tb.rvalue(blk["i"], blk["stmts"].index(s), s["rv"]))
+                        rep.check(v[0] == "param", R, k, "setter-stores-argument:%s" % pr[1].get("name"), g.loc(),
+                                  "%s stores its argument in the builder's field %s unchanged" % (k.split("::")[-1], pr[1].get("name")),
+                                  {"term": terms.fmt(v)[:160]}, cfg)
